@@ -59,6 +59,12 @@ FIRST = {  # what happened on the FIRST run against each change, before any stre
     "C18_r4_c": "would have been missed (no bus names differing only in case) -> family entry added before the run",
     "C09_r4_c": "would have been missed (binding skeletons had no enum) -> bind_enum skeleton added before the run",
     "C13_r4_c": "would have been missed (no two containers of containers agreeing on their outer levels) -> schema added before the run",
+    "C16_r5_d": "inconclusive (the byte-array proxy only knew the ascii codec) -> latin-1 / utf-8 (7-bit) codecs",
+    "C02_r5_d": "missed (no struct with ids out of declaration order was reached through an array) -> reversed-id struct inside every container kind",
+    "C03_r5_d": "inconclusive (basic_string::reserve had no model in the C03 machine), then missed (no sub-byte dynamic array longer than the message has bytes) -> libstdc++ natives everywhere, a 14-element instance for such arrays",
+    "C13_r5_d": "missed (no string started in the middle of a byte) -> schema added",
+    "C12_r5_d": "caught by C20 (same-named module files), not by C12: the defect is in module import, C12's templates are single files",
+    "C09_r5_d": "caught; the first witness had small enumerator values whose concrete replay did not reproduce (CPython shares small ints) -> a second witness with every integer outside -5..256 is tried before giving up",
     "C05_2": "would have been missed (no plain signal named like an earlier binding's multiplexer) -> schema added before the run",
 }
 
